@@ -430,8 +430,10 @@ def extract_model_operations(in_model):
 
       kernel_h, kernel_w, _, _ = weight.shape
 
+      # each output channel only sees the input channels of its group
       number_of_operations = (
-          height_o * width_o * channels_o * kernel_h * kernel_w * channels_i)
+          height_o * width_o * channels_o * kernel_h * kernel_w *
+          (channels_i // getattr(layer, "groups", 1)))
 
       number_of_weights = (kernel_h * kernel_w * channels_o * channels_i)
 
@@ -459,7 +461,8 @@ def extract_model_operations(in_model):
       kernel_length, _, _ = weight.shape
 
       number_of_operations = (
-          time_o * channels_o * kernel_length * channels_i)
+          time_o * channels_o * kernel_length *
+          (channels_i // getattr(layer, "groups", 1)))
 
       number_of_weights = (kernel_length * channels_o * channels_i)
       number_of_bias = 0
